@@ -263,10 +263,17 @@ func dupSignature(ps *plannedSet, q *query, models []rewriter, setOps bool) bool
 			} else if bb, ok := x.(*binExpr); ok && !setOps {
 				b = bb
 			}
-			if b == nil || found || isScalar(b.l) || isScalar(b.r) || b.group != "" {
+			if b == nil || found || isScalar(b.l) || isScalar(b.r) {
 				return
 			}
-			for _, side := range []expr{b.l, b.r} {
+			sides := []expr{b.l, b.r}
+			switch b.group { // many-to-one: only the "one" side must have unique signatures
+			case "left":
+				sides = []expr{b.r}
+			case "right":
+				sides = []expr{b.l}
+			}
+			for _, side := range sides {
 				q2 := *q
 				q2.e = side
 				q2.text = side.text()
